@@ -74,8 +74,9 @@ where
       let s_next = s.clone();
       let s_error = s.clone();
       let s_complete = s.clone();
+      let s_alive = s.clone();
 
-      *sbsc.write().unwrap() = Some(
+      let sb =
         utils::ready_set_go(
           move || {
             // block until emitted for replay
@@ -101,8 +102,12 @@ where
           move || {
             s_complete.complete();
           },
-        ),
-      );
+        );
+      if s_alive.is_subscribed() {
+        *sbsc.write().unwrap() = Some(sb);
+      } else {
+        sb.unsubscribe();
+      }
     })
   }
 
